@@ -22,6 +22,9 @@ P = "partitura.performance"
 
 
 def run(ctx):
+    from ..rules import extra as _X4
+    _X4.rule_ticks_round_once(ctx)
+    _X4.rule_renumber_every_part_fully(ctx)
     from ..rules import extra as _X3
     _X3.rule_validators_accept_valid(ctx)
     w = world(ctx)
